@@ -113,6 +113,8 @@ def check_cli(inp):
     allm = ("-a" in argv) or ("--all" in argv)
     nocol = ("-n" in argv) or ("--no-colors" in argv)
     vector = vector_arg(argv)
+    if vector == "--":
+        return []       # the bare '--' is consumed by argparse itself, differently in different Python versions: outside the domain
     out = r["out"]
     alternatives = []
     if vector:      # an empty VECTOR is read as 'no vector given' (the program asks interactively)
@@ -170,6 +172,10 @@ def case_strategy():
         for f, longf in (("-j", "--json"), ("-a", "--all"), ("-n", "--no-colors")):
             if draw(st.booleans()):
                 argv.append(f if draw(st.integers(0, 3)) else longf)
+                if draw(st.integers(0, 7)) == 0:
+                    argv.append(draw(st.sampled_from((f, longf))))       # the same flag twice is still 'built from' the flags
+        if flags and draw(st.integers(0, 9)) == 0:
+            argv.append(flags[0])
         mode = draw(st.sampled_from(("valid", "valid", "valid", "other-version", "mutant", "text", "argparse-special", "interactive", "interactive",
                                      "interactive-eof")))
         stdin = None
